@@ -71,6 +71,13 @@ def run(tier, mode):
                     fail('required_no_colon', {'text': nocolon}, q2 if isinstance(q2, H.Exn) else tr(q2), 'one fallback tract with the whole text')
                 else:
                     nontriv.add(('nocolon', nocolon))
+                # ... also when the other optional modes are on at the same time
+                for extra in ('sec_colon_required,sec_within', 'sec_colon_required,segment', 'sec_colon_required,segment,sec_within'):
+                    q3 = H.call(pytrs.PLSSDesc, nocolon, config=extra)
+                    n_or += 1
+                    if isinstance(q3, H.Exn) or len(q3.tracts) != 1 or q3.tracts[0].desc not in (q3.pp_desc, cleanup_desc(q3.pp_desc)):
+                        if len(D) == 1:     # one Twp/Rge: a single chunk also under segment
+                            fail('required_no_colon', {'text': nocolon, 'config': extra}, q3 if isinstance(q3, H.Exn) else tr(q3), 'one fallback tract with the whole text')
     # ---- sec_within
     leads = ['That part of the NE/4', 'A strip of land 100 feet wide across the N/2', 'All that portion of the SW/4 lying south of the highway', 'The East 80 rods']
     trails = ['lying within the right-of-way', 'being a part of the original townsite', 'described in Book 12, Page 45', 'containing 12.5 acres, more or less']
@@ -103,6 +110,11 @@ def run(tier, mode):
             fail('sec_within', {'text': text, 'placement': ['before', 'inside', 'after', 'inside_with_text'][place]}, o if isinstance(o, H.Exn) else [tr(o), o.w_flags], [want, 'sec_within<...> x%d' % len(secs)])
         else:
             nontriv.add(('within', text))
+            # segment is conservative here too: one Twp/Rge, one layout
+            o2 = H.call(pytrs.PLSSDesc, text, config='segment,sec_within')
+            n_or += 1
+            if isinstance(o2, H.Exn) or tr(o2) != tr(o):
+                fail('segment_changes_tracts', {'text': text, 'config': 'segment,sec_within'}, o2 if isinstance(o2, H.Exn) else tr(o2), tr(o))
     parts = {}
     if mode != 'search':
         parts['model_vs_code'] = plsscorr.run(tier, 'c20', extra_texts=texts[:100 if tier == 'quick' else 1200] + texts[-60:],
